@@ -60,11 +60,11 @@ class Gen(object):
     if self.features is None:
       # while/else, for/else: documented as unsupported; 'defret' (bodies that END in an unconditional return) is
       # opt-in so that the default program streams of every stand-in stay what they were
-      return feat not in ('loopelse', 'defret')
-    if feat == 'defret':
-      return 'defret' in self.features
-    if 'defret' in self.features and len(self.features) == 1:
-      return feat not in ('loopelse',)     # features=('defret',): everything of the default space plus defret
+      return feat not in ('loopelse', 'defret', 'outerraise')
+    if feat in ('defret', 'outerraise'):
+      return feat in self.features
+    if set(self.features) <= {'defret', 'outerraise'}:
+      return feat not in ('loopelse',)     # only opt-in families named: everything of the default space plus them
     return feat in self.features
 
   def maybe_ret(self, body, vars_, ind2, p=0.3):
@@ -244,6 +244,17 @@ class Gen(object):
       if self.rnd.random() < 0.25:
         fin, _ = self.block(vars_, ind2, depth + 1, False, [0])
         out += ['%sfinally:' % ind] + fin
+      if self.on('outerraise') and self.rnd.random() < 0.5:
+        # opt-in: the inner try also raises a KeyError that its own handlers do not match; an ENCLOSING try catches it
+        # (the outer body may end in a return, which makes the outer handler reachable only through that raise)
+        kraise = ['%sif %s:' % (ind2 + '  ', self.cond(vars_)), '%s  raise KeyError(%s)' % (ind2 + '  ', self.atom(vars_))]
+        inner = ['  ' + l for l in out]
+        inner = inner[:1] + kraise + inner[1:]
+        tail, _ = self.block(vars_, ind2, depth + 1, in_loop, [0])
+        if self.rnd.random() < 0.4:
+          tail = tail + ['%sreturn %s' % (ind2, self.expr(vars_))]
+        hb2, _ = self.block(vars_, ind2, depth + 1, in_loop, [0])
+        out = ['%stry:' % ind] + inner + tail + ['%sexcept KeyError:' % ind] + hb2
       return out, []
     if k == 'with':
       body, _ = self.block(vars_, ind2, depth + 1, in_loop, budget)
